@@ -54,7 +54,9 @@ def gen_histories(chk, mdl, n):
     return out
 
 def run(chk):
-    proofs = lib.check_proofs(PID)
+    import os
+    extra = tuple(x for x in ("C07norm", "C07ops") if os.path.exists(os.path.join(lib.COQ, "Props", x + ".v")))
+    proofs = lib.check_proofs(PID, extra_props=extra)
     exes = lib.build_impl(); mdl = lib.build_model()
     fnd = lib.Findings(PID)
     hreq = gen_histories(chk, mdl, 6000 if chk.tier == "quick" else 150000)
